@@ -36,10 +36,8 @@ lists (different count, different split of the same bytes, any changed byte) nev
 hash input. -/
 theorem tupleHash_preimage_inj {xs ys : List Bytes} {L L' : Nat}
     (hx : AllShort xs) (hy : AllShort ys) (hL : L < 2 ^ 64) (hL' : L' < 2 ^ 64)
-    (h : tupleHashPreimage xs L = tupleHashPreimage ys L') : xs = ys ∧ L = L' := by
-  unfold tupleHashPreimage at h
-  obtain ⟨h1, h2⟩ := rightEncode_suffix_free (digits_lt_256 hL) (digits_lt_256 hL') h
-  exact ⟨concatEncoded_inj hx hy h1, by omega⟩
+    (h : tupleHashPreimage xs L = tupleHashPreimage ys L') : xs = ys ∧ L = L' :=
+  tupleHashPreimage_inj hx hy hL hL' h
 
 example : tupleHashPreimage [[1, 2], [3]] 32 = [1, 16, 1, 2, 1, 8, 3, 1, 0, 2] := by
   simp [tupleHashPreimage, concatEncoded, encodeString, leftEncode, rightEncode, beDigits, leDigits]
@@ -86,14 +84,6 @@ theorem digestItems_short {f : CmdFields} (hf : FieldsShort f) : AllShort (diges
   · exact hf.2.1
   · exact hf.2.2.1
   · exact hf.2.2.2
-
-theorem suiteItems_inj {tag tag' : Bytes} {oids oids' ctx ctx' : List Bytes}
-    (hlen : ctx.length = ctx'.length)
-    (h : suiteTupleItems tag oids ctx = suiteTupleItems tag' oids' ctx') :
-    tag = tag' ∧ oids = oids' ∧ ctx = ctx' := by
-  simp only [suiteTupleItems, List.cons.injEq] at h
-  have := List.append_inj' h.2 hlen
-  exact ⟨h.1, this.1, this.2⟩
 
 /-- every field of `DigestField` is hashed (side condition on the generated order) -/
 theorem digestOrder_complete : ∀ fld : Gen.C34.DigestField, fld ∈ Gen.C34.digestOrder := by
@@ -247,7 +237,7 @@ theorem verify_iff (oids : List Term) (pub : Term) (c : Cmd) (s id : Term) :
 theorem sym_digest_inj {oids : List Term} {a a' : Term} {c c' : Cmd}
     (h : digest oids a c = digest oids a' c') : a = a' ∧ c = c' := by
   have := (thash_inj h).2
-  have hget := map_eq_on this
+  have hget := Sym.map_eq_on this
   have ha := hget .author (digestOrder_complete _)
   have hn := hget .name (digestOrder_complete _)
   have hp := hget .parent (digestOrder_complete _)
@@ -324,7 +314,7 @@ theorem ffi_wrong_claimed_id_fails (oids : List Term) (k : Term) (c : Cmd) (clai
 /-- the command id binds the digest and the signature (symbolic counterpart of `cmdId_inj`) -/
 theorem sym_cmdId_inj {oids : List Term} {d s d' s' : Term}
     (h : cmdId oids d s = cmdId oids d' s') : d = d' ∧ s = s' := by
-  have hget := map_eq_on (mkId_inj h).2
+  have hget := Sym.map_eq_on (mkId_inj h).2
   exact ⟨hget .digest (cmdIdOrder_complete _), hget .sig (cmdIdOrder_complete _)⟩
 
 /-- different signing events have different command ids -/
